@@ -13,9 +13,9 @@ Iso8601/Ext.vos Iso8601/Ext.vok Iso8601/Ext.required_vos: Iso8601/Ext.v Base/GoI
 Generated/Iso8601Gen.vo Generated/Iso8601Gen.glob Generated/Iso8601Gen.v.beautified Generated/Iso8601Gen.required_vo: Generated/Iso8601Gen.v Base/GoInt.vo Iso8601/Ext.vo
 Generated/Iso8601Gen.vio: Generated/Iso8601Gen.v Base/GoInt.vio Iso8601/Ext.vio
 Generated/Iso8601Gen.vos Generated/Iso8601Gen.vok Generated/Iso8601Gen.required_vos: Generated/Iso8601Gen.v Base/GoInt.vos Iso8601/Ext.vos
-Extract/Extract.vo Extract/Extract.glob Extract/Extract.v.beautified Extract/Extract.required_vo: Extract/Extract.v Base/GoInt.vo Iso8601/Ext.vo Generated/Iso8601Gen.vo Iso8601/Spec.vo Generated/AsmAsciiGen.vo Ascii/AsmTotal.vo Generated/AsciiGen.vo Ascii/Spec.vo Proto/Ext.vo Generated/ProtoGen.vo Proto/Model.vo
-Extract/Extract.vio: Extract/Extract.v Base/GoInt.vio Iso8601/Ext.vio Generated/Iso8601Gen.vio Iso8601/Spec.vio Generated/AsmAsciiGen.vio Ascii/AsmTotal.vio Generated/AsciiGen.vio Ascii/Spec.vio Proto/Ext.vio Generated/ProtoGen.vio Proto/Model.vio
-Extract/Extract.vos Extract/Extract.vok Extract/Extract.required_vos: Extract/Extract.v Base/GoInt.vos Iso8601/Ext.vos Generated/Iso8601Gen.vos Iso8601/Spec.vos Generated/AsmAsciiGen.vos Ascii/AsmTotal.vos Generated/AsciiGen.vos Ascii/Spec.vos Proto/Ext.vos Generated/ProtoGen.vos Proto/Model.vos
+Extract/Extract.vo Extract/Extract.glob Extract/Extract.v.beautified Extract/Extract.required_vo: Extract/Extract.v Base/GoInt.vo Iso8601/Ext.vo Generated/Iso8601Gen.vo Iso8601/Spec.vo Generated/AsmAsciiGen.vo Ascii/AsmTotal.vo Generated/AsciiGen.vo Ascii/Spec.vo Proto/Ext.vo Generated/ProtoGen.vo Proto/Model.vo Proto/PrimSpec.vo Proto/Spec.vo
+Extract/Extract.vio: Extract/Extract.v Base/GoInt.vio Iso8601/Ext.vio Generated/Iso8601Gen.vio Iso8601/Spec.vio Generated/AsmAsciiGen.vio Ascii/AsmTotal.vio Generated/AsciiGen.vio Ascii/Spec.vio Proto/Ext.vio Generated/ProtoGen.vio Proto/Model.vio Proto/PrimSpec.vio Proto/Spec.vio
+Extract/Extract.vos Extract/Extract.vok Extract/Extract.required_vos: Extract/Extract.v Base/GoInt.vos Iso8601/Ext.vos Generated/Iso8601Gen.vos Iso8601/Spec.vos Generated/AsmAsciiGen.vos Ascii/AsmTotal.vos Generated/AsciiGen.vos Ascii/Spec.vos Proto/Ext.vos Generated/ProtoGen.vos Proto/Model.vos Proto/PrimSpec.vos Proto/Spec.vos
 Iso8601/Spec.vo Iso8601/Spec.glob Iso8601/Spec.v.beautified Iso8601/Spec.required_vo: Iso8601/Spec.v Base/GoInt.vo Iso8601/Ext.vo Generated/Iso8601Gen.vo
 Iso8601/Spec.vio: Iso8601/Spec.v Base/GoInt.vio Iso8601/Ext.vio Generated/Iso8601Gen.vio
 Iso8601/Spec.vos Iso8601/Spec.vok Iso8601/Spec.required_vos: Iso8601/Spec.v Base/GoInt.vos Iso8601/Ext.vos Generated/Iso8601Gen.vos
@@ -52,6 +52,15 @@ Generated/ProtoGen.vos Generated/ProtoGen.vok Generated/ProtoGen.required_vos: G
 Proto/Model.vo Proto/Model.glob Proto/Model.v.beautified Proto/Model.required_vo: Proto/Model.v Base/GoInt.vo Proto/Ext.vo Generated/ProtoGen.vo
 Proto/Model.vio: Proto/Model.v Base/GoInt.vio Proto/Ext.vio Generated/ProtoGen.vio
 Proto/Model.vos Proto/Model.vok Proto/Model.required_vos: Proto/Model.v Base/GoInt.vos Proto/Ext.vos Generated/ProtoGen.vos
+Proto/PrimProofs.vo Proto/PrimProofs.glob Proto/PrimProofs.v.beautified Proto/PrimProofs.required_vo: Proto/PrimProofs.v Base/GoInt.vo Proto/Ext.vo Generated/ProtoGen.vo Proto/PrimSpec.vo
+Proto/PrimProofs.vio: Proto/PrimProofs.v Base/GoInt.vio Proto/Ext.vio Generated/ProtoGen.vio Proto/PrimSpec.vio
+Proto/PrimProofs.vos Proto/PrimProofs.vok Proto/PrimProofs.required_vos: Proto/PrimProofs.v Base/GoInt.vos Proto/Ext.vos Generated/ProtoGen.vos Proto/PrimSpec.vos
+Proto/Spec.vo Proto/Spec.glob Proto/Spec.v.beautified Proto/Spec.required_vo: Proto/Spec.v Base/GoInt.vo Proto/Ext.vo Generated/ProtoGen.vo Proto/Model.vo Proto/PrimSpec.vo
+Proto/Spec.vio: Proto/Spec.v Base/GoInt.vio Proto/Ext.vio Generated/ProtoGen.vio Proto/Model.vio Proto/PrimSpec.vio
+Proto/Spec.vos Proto/Spec.vok Proto/Spec.required_vos: Proto/Spec.v Base/GoInt.vos Proto/Ext.vos Generated/ProtoGen.vos Proto/Model.vos Proto/PrimSpec.vos
+Proto/PrimSpec.vo Proto/PrimSpec.glob Proto/PrimSpec.v.beautified Proto/PrimSpec.required_vo: Proto/PrimSpec.v Base/GoInt.vo Proto/Ext.vo Generated/ProtoGen.vo
+Proto/PrimSpec.vio: Proto/PrimSpec.v Base/GoInt.vio Proto/Ext.vio Generated/ProtoGen.vio
+Proto/PrimSpec.vos Proto/PrimSpec.vok Proto/PrimSpec.required_vos: Proto/PrimSpec.v Base/GoInt.vos Proto/Ext.vos Generated/ProtoGen.vos
 Properties/C03.vo Properties/C03.glob Properties/C03.v.beautified Properties/C03.required_vo: Properties/C03.v Base/GoInt.vo Proto/Ext.vo Generated/ProtoGen.vo Proto/Model.vo
 Properties/C03.vio: Properties/C03.v Base/GoInt.vio Proto/Ext.vio Generated/ProtoGen.vio Proto/Model.vio
 Properties/C03.vos Properties/C03.vok Properties/C03.required_vos: Properties/C03.v Base/GoInt.vos Proto/Ext.vos Generated/ProtoGen.vos Proto/Model.vos
